@@ -25,6 +25,7 @@ for u in units:
         if f['mode'] == 'assumed' and 'norm_sha' in f and f.get('contract_file') and 'E9' not in f.get('rules', []):
             tlock['assumed_functions'][f['key']] = f['norm_sha']
     tlock['known_functions'][u] = sorted(f['key'] for f in meta['functions'])
+    tlock.setdefault('types', {}).update(meta.get('types', {}))
     _files = {}
     for f in meta['functions']:
         if f.get('contract_file') and f.get('file') and f.get('lines'):
